@@ -60,7 +60,7 @@ SHAPES = {
     'sh16': {'defines': ['H_BUFSZ=16', 'H_SHARED=1'], 'text': 'shared working buffer of 16 bytes (halves 8/8)', 'unwind': 18},
     'sh32': {'defines': ['H_BUFSZ=32', 'H_SHARED=1'], 'text': 'shared working buffer of 32 bytes (halves 16/16)', 'unwind': 34},
     'sep40': {'defines': ['H_BUFSZ=40', 'H_SHARED=0', 'H_UBUFSZ=6'], 'text': 'command buffer 40 bytes, separate event buffer 6 bytes', 'unwind': 42},
-    'sep8': {'defines': ['H_BUFSZ=8', 'H_SHARED=0', 'H_UBUFSZ=6'], 'text': 'command buffer 8 bytes, separate event buffer 6 bytes', 'unwind': 10},
+    'sep8': {'defines': ['H_BUFSZ=8', 'H_SHARED=0', 'H_UBUFSZ=6'], 'text': 'command buffer 8 bytes, separate event buffer 6 bytes', 'unwind': 14},
 }
 SHAPE_TEXT = '; pool of 3 commands in 1-2 groups, <= 2 variables each (all types/access modes, data_size 1..4), names <= 2 bytes over all byte values, every flag and handler subset, event queue capacity %d; all object scalars symbolic under Inv'
 
